@@ -54,6 +54,7 @@ func (k poolKind) String() string {
 // scripted upstream
 
 type upConn struct {
+	u          *upstream
 	idx        int
 	c          net.Conn
 	mu         sync.Mutex
@@ -78,6 +79,7 @@ type upstream struct {
 	mu            sync.Mutex
 	conns         []*upConn
 	closeOnAccept string // "fin" / "rst": the next accepted connection is closed at once (consumed by the accept)
+	auto          bool   // churn family: every request is answered at once (echoing its token)
 }
 
 func newUpstream(kind poolKind) (*upstream, error) {
@@ -112,6 +114,7 @@ func (u *upstream) recycle() {
 		c.c.Close()
 	}
 	u.conns = nil
+	u.auto = false
 	u.mu.Unlock()
 	select {
 	case upFree[u.kind] <- u:
@@ -127,7 +130,7 @@ func (u *upstream) acceptLoop() {
 			return
 		}
 		u.mu.Lock()
-		uc := &upConn{idx: len(u.conns), c: c}
+		uc := &upConn{u: u, idx: len(u.conns), c: c}
 		u.conns = append(u.conns, uc)
 		mode := u.closeOnAccept
 		u.closeOnAccept = ""
@@ -185,7 +188,21 @@ func (uc *upConn) noteRequest(tok int) {
 		uc.overlap++
 	}
 	uc.reqs = append(uc.reqs, tok)
+	auto := uc.u != nil && uc.u.auto
+	var rid uint64
+	if auto {
+		uc.answered++
+		rid = uc.ids[tok]
+	}
 	uc.mu.Unlock()
+	if auto {
+		if uc.u.kind == kHTTP1 {
+			body := "body-of-" + strconv.Itoa(tok)
+			uc.write([]byte("HTTP/1.1 200 OK\r\nX-Tok: " + strconv.Itoa(tok) + "\r\nContent-Length: " + strconv.Itoa(len(body)) + "\r\n\r\n" + body))
+		} else {
+			uc.write(ppFrameBytes(ppResponse, rid, uint32(tok)))
+		}
+	}
 }
 
 func (uc *upConn) readHTTP() {
@@ -444,6 +461,7 @@ func (h *vhost) CreateConnection(ctx context.Context) types.CreateConnectionData
 
 type lease struct {
 	recvWanted bool // a receiver was passed to NewStream (two-way request)
+	connID     uint64 // h2 world: id of the upstream connection the pool put the stream on
 	idx    int
 	cli    int
 	tok    int
@@ -453,20 +471,35 @@ type lease struct {
 
 	mu       sync.Mutex
 	recv     int
+	hdr      api.HeaderMap   // the delivered objects, retained BY REFERENCE (the request's buffer context is never given back,
+	data     buffer.IoBuffer // so they must stay what they were whatever happens later on the connection and in the pools)
+	snapTok  int
+	snapBody string
 	foreign  int // answers whose echoed token is not ours
 	resets   []types.StreamResetReason
 	destroys int
 }
 
-func (l *lease) OnReceive(ctx context.Context, headers api.HeaderMap, data buffer.IoBuffer, trailers api.HeaderMap) {
+func tokOf(headers api.HeaderMap) int {
 	got := -2
 	if v, ok := headers.Get("X-Tok"); ok {
 		got, _ = strconv.Atoi(v)
 	} else if f, ok := headers.(*ppFrame); ok {
 		got = int(f.tok)
 	}
+	return got
+}
+
+func (l *lease) OnReceive(ctx context.Context, headers api.HeaderMap, data buffer.IoBuffer, trailers api.HeaderMap) {
+	got := tokOf(headers)
 	l.mu.Lock()
 	l.recv++
+	if l.recv == 1 {
+		l.hdr, l.data, l.snapTok = headers, data, got
+		if data != nil {
+			l.snapBody = string(data.Bytes())
+		}
+	}
 	if got != l.tok {
 		l.foreign++
 	}
@@ -528,6 +561,7 @@ type world struct {
 	ext      int
 	failedDials int
 	mu2         sync.Mutex // leases appended by concurrent NewStream calls (h2 pair)
+	raceDelay   time.Duration // respRace: the reset is fired this much after the answer was written
 	noHeldWait  bool // the caller waits for the streams of a closed connection itself
 	noModel     bool
 	raced       int
@@ -742,17 +776,26 @@ func (w *world) send(l *lease) {
 	}
 }
 
-func (w *world) respond(l *lease, connClose bool) {
+func (w *world) respond(l *lease, connClose bool) { w.respondX(l, connClose, false) }
+
+// respondX: twice = the answer is followed, in the same write, by a copy of itself (HTTP/1: bytes behind the response - the
+// connection cannot carry another request and must not be reused)
+func (w *world) respondX(l *lease, connClose, twice bool) {
 	uc := w.clients[l.cli].up
 	uc.mu.Lock()
 	uc.answered++
 	uc.mu.Unlock()
 	if w.kind == kHTTP1 {
-		s := "HTTP/1.1 200 OK\r\nX-Tok: " + strconv.Itoa(l.tok) + "\r\nContent-Length: 0\r\n"
+		body := "body-of-" + strconv.Itoa(l.tok)
+		s := "HTTP/1.1 200 OK\r\nX-Tok: " + strconv.Itoa(l.tok) + "\r\nContent-Length: " + strconv.Itoa(len(body)) + "\r\n"
 		if connClose {
 			s += "Connection: close\r\n"
 		}
-		uc.write([]byte(s + "\r\n"))
+		s += "\r\n" + body
+		if twice {
+			s += s
+		}
+		uc.write([]byte(s))
 	} else {
 		uc.mu.Lock()
 		rid := uc.ids[l.tok]
@@ -761,6 +804,92 @@ func (w *world) respond(l *lease, connClose bool) {
 	}
 	// the client wrapper destroys the stream first and delivers second: wait for the delivery itself
 	w.wait("response-delivery", time.Second, func() bool { r, d, _, rs := l.snap(); return r > 0 || (d > 0 && rs != "") })
+}
+
+// dupResponse: the upstream repeats the answer it gave last on this connection (a duplicate / late answer of a finished
+// exchange); nothing is outstanding for it.  HTTP/1 has no request ids - data that arrives while a request is outstanding IS
+// its response - so there the op is only performed on a connection without an outstanding request (idle, or leased and not
+// yet sent), where the client must close the connection (reported: true = modelled as a local close of the connection).
+func (w *world) dupResponse(c *cliRec) bool {
+	if c.up == nil || c.closedMosnSide() {
+		return false
+	}
+	uc := c.up
+	uc.mu.Lock()
+	if uc.answered == 0 || uc.answered > len(uc.reqs) {
+		uc.mu.Unlock()
+		return false
+	}
+	tok := uc.reqs[uc.answered-1]
+	rid := uc.ids[tok]
+	before := uc.hbAcks
+	uc.mu.Unlock()
+	if w.kind == kHTTP1 {
+		held := w.liveLeaseOn(c.idx)
+		if held != nil && held.sent {
+			return false
+		}
+		body := "body-of-" + strconv.Itoa(tok)
+		uc.write([]byte("HTTP/1.1 200 OK\r\nX-Tok: " + strconv.Itoa(tok) + "\r\nContent-Length: " + strconv.Itoa(len(body)) + "\r\n\r\n" + body))
+		if !w.wait("close-after-unsolicited-data", 300*time.Millisecond, func() bool { return atomic.LoadInt32(&c.closeEvs) > 0 }) {
+			return false // the data was kept: whoever sends the next request on this connection gets it (finder: foreign-response)
+		}
+		return true
+	}
+	uc.write(append(ppFrameBytes(ppResponse, rid, uint32(tok)), ppFrameBytes(ppHB, 0, 0)...))
+	w.wait("dup-barrier", time.Second, func() bool {
+		if c.closedMosnSide() {
+			return true
+		}
+		uc.mu.Lock()
+		defer uc.mu.Unlock()
+		return uc.hbAcks > before
+	})
+	return false
+}
+
+// respRace: the answer of a sent request and its local reset (the proxy's time-out) at the same instant, from two goroutines.
+// Either may win; the stream must end exactly once and the books must be right afterwards (finder only).
+func (w *world) respRace(l *lease) {
+	if !l.live() || !l.sent || l.cli < 0 || w.clients[l.cli].up == nil {
+		return
+	}
+	uc := w.clients[l.cli].up
+	uc.mu.Lock()
+	uc.answered++
+	rid := uc.ids[l.tok]
+	uc.mu.Unlock()
+	var b []byte
+	if w.kind == kHTTP1 {
+		body := "body-of-" + strconv.Itoa(l.tok)
+		b = []byte("HTTP/1.1 200 OK\r\nX-Tok: " + strconv.Itoa(l.tok) + "\r\nContent-Length: " + strconv.Itoa(len(body)) + "\r\n\r\n" + body)
+	} else {
+		b = ppFrameBytes(ppResponse, rid, uint32(l.tok))
+	}
+	var wg sync.WaitGroup
+	var goFlag int32
+	wg.Add(2)
+	go func() {
+		defer wg.Done()
+		for atomic.LoadInt32(&goFlag) == 0 {
+		}
+		uc.write(b)
+	}()
+	go func() {
+		defer wg.Done()
+		for atomic.LoadInt32(&goFlag) == 0 {
+		}
+		if w.raceDelay > 0 {
+			time.Sleep(w.raceDelay)
+		}
+		l.sender.GetStream().ResetStream(types.StreamLocalReset)
+	}()
+	atomic.StoreInt32(&goFlag, 1)
+	wg.Wait()
+	w.wait("response-or-reset", time.Second, func() bool { return !l.live() })
+	// the connection of a reset exchange is closed by the pool: let the close be handled
+	c := w.clients[l.cli]
+	waitFor(20*time.Millisecond, func() bool { return atomic.LoadInt32(&c.closeEvs) > 0 })
 }
 
 func (w *world) localReset(l *lease) {
@@ -778,6 +907,29 @@ func (w *world) remoteReset(l *lease) {
 		return
 	}
 	l.sender.GetStream().ResetStream(types.StreamRemoteReset)
+}
+
+// recheckDelivered re-reads every delivered response through the references retained at delivery: later traffic on the same
+// connection, other connections and pool churn must not have changed them
+func (w *world) recheckDelivered() []finding {
+	var out []finding
+	for _, l := range w.leases {
+		l.mu.Lock()
+		hdr, data, tok, body := l.hdr, l.data, l.snapTok, l.snapBody
+		l.mu.Unlock()
+		if hdr == nil {
+			continue
+		}
+		now, nowBody := tokOf(hdr), ""
+		if data != nil {
+			nowBody = string(data.Bytes())
+		}
+		if now != tok || nowBody != body {
+			out = append(out, finding{w.kind.String() + ":delivered-response-changed-after-later-traffic", fmt.Sprintf("stream %d: the response object delivered to its receiver read token %d body %q at delivery and reads token %d body %q at the end of the history", l.idx, tok, body, now, nowBody)})
+			break
+		}
+	}
+	return out
 }
 
 // liveLeaseOn returns the live lease on client c (nil if none); more than one is reported by the finder.
@@ -848,9 +1000,7 @@ func (w *world) goAway(c *cliRec) {
 func (w *world) extReq(inc bool) {
 	if inc {
 		w.rm.Requests().Increase()
-		if w.maxReq != 0 {
-			w.ext++
-		}
+		w.ext++
 	} else if w.ext > 0 {
 		w.rm.Requests().Decrease()
 		w.ext--
